@@ -9,6 +9,9 @@ function update). All theorems quantify over all sheets / histories / positions;
 is bounded. Payload tokens are opaque (conversion is checked by the direct oracle).
 -/
 import XlModel.Lemmas.Grid4
+import XlModel.Lemmas.GridPayload
+import XlModel.Lemmas.Bstr
+import XlModel.Props.C20
 
 namespace XlModel.Props.C03
 open XlModel XlModel.Grid
@@ -116,17 +119,17 @@ theorem step_refines (s : Sheet) (op : Op) :
       rw [hn]
       by_cases hid : s.nStyles ≤ id
       · simp only [hid, if_true, and_true]
-        simp only [abs]
+        simp only [Grid.abs]
         rw [makeContiguous_eq, cellAt_fold_fillAt, cellAt_prepare]
       · simp only [hid, if_false, and_true]
-        simp only [abs]
+        simp only [Grid.abs]
         rw [cellAt_styleLoop s.rows _ id p1 p2 p4]
   | getStyle c r =>
     simp only [step, Spec.step, getStyle]
     by_cases h0 : c = 0 ∨ r = 0
     · simp [h0]
     · simp only [h0, if_false, true_and]
-      simp only [abs, cellAt, h0, if_false, getCellAt]
+      simp only [Grid.abs, cellAt, h0, if_false, getCellAt]
       by_cases hr : r > s.rows.length
       · have hn : s.rows[r - 1]? = none := List.getElem?_eq_none (by omega)
         simp [hr, hn]; rfl
@@ -146,7 +149,7 @@ theorem step_refines (s : Sheet) (op : Op) :
     · simp [h0]
     · simp only [h0, if_false, and_true]
       obtain ⟨p1, p2, _, _⟩ := sortRect_pos c1 r1 c2 r2 h0
-      simp only [abs]
+      simp only [Grid.abs]
       rw [cellAt_mergeLoop s.rows _ p1 p2]
   | unmerge c1 r1 c2 r2 =>
     simp only [step, Spec.step, unmergeCell]
@@ -188,7 +191,7 @@ theorem get_refines (s : Sheet) (h : Dense s.rows) (c r : Nat) (hc : 1 ≤ c) (h
   rw [getCell_dense s h]
   have h0 : ¬ (c = 0 ∨ r = 0) := by omega
   have h1 : ¬ ((anchor s.merges c r).1 = 0 ∨ (anchor s.merges c r).2 = 0) := by omega
-  simp only [h0, h1, if_false, Spec.get, abs]
+  simp only [h0, h1, if_false, Spec.get, Grid.abs]
   rw [cellAt_eq_slot]
   simp only [h1, if_false]
   cases slot s.rows (anchor s.merges c r).1 (anchor s.merges c r).2 <;> rfl
@@ -506,6 +509,125 @@ theorem intern_denotes (sst : List Tok) (e : Tok) : (intern sst e).1[(intern sst
     obtain ⟨hlt, heq, _⟩ := this
     rw [List.getElem?_eq_getElem hlt, heq]
   | none => simp only; rw [List.getElem?_append]; simp
+
+/-! ## typed payloads (conversion of the value setters) -/
+
+/-- read-back of any non-string payload: the getter returns the setter's effect on the anchor cell -/
+theorem write_readback (s : Sheet) (h : Dense s.rows) (k : Setter) (c r : Nat) (p : Payload)
+    (hp : ∀ e, p ≠ .sst e) (hc : 1 ≤ c) (hr : 1 ≤ r)
+    (ha : 1 ≤ (anchor s.merges c r).1 ∧ 1 ≤ (anchor s.merges c r).2) :
+    observed (getCell (step s (.set k c r p)).1 c r) = writeCell k p (Spec.get (abs s) c r) := by
+  have hstep : step s (.set k c r p) = writeAt s c r (writeCell k p) := by
+    cases p <;> first | rfl | exact absurd rfl (hp _)
+  have hspec : Spec.step (abs s) (.set k c r p) = Spec.writeAt (abs s) c r (writeCell k p) := by
+    cases p <;> first | rfl | exact absurd rfl (hp _)
+  have hm : (step s (.set k c r p)).1.merges = s.merges := by rw [hstep, writeAt_merges]
+  have hd := dense_step s (.set k c r p) h
+  rw [get_refines _ hd c r hc hr (by rw [hm]; exact ha), (step_refines s (.set k c r p)).1, hspec]
+  simp only [Spec.writeAt, Spec.get]
+  have h0 : ¬ (c = 0 ∨ r = 0) := by omega
+  have hmm : (abs s).merges = s.merges := rfl
+  have h1 : ¬ ((anchor (abs s).merges c r).1 = 0 ∨ (anchor (abs s).merges c r).2 = 0) := by rw [hmm]; omega
+  simp only [h0, h1, if_false, Spec.upd]
+  simp
+
+/-- clause "integers exactly": after `SetCellInt(cell, i)` (any int64, any history before, any merged
+ranges) the cell reads back with empty type tag and the decimal text of `i`, and that text denotes `i` -/
+theorem int_exact (s : Sheet) (h : Dense s.rows) (i : Int) (c r : Nat) (hc : 1 ≤ c) (hr : 1 ≤ r)
+    (ha : 1 ≤ (anchor s.merges c r).1 ∧ 1 ≤ (anchor s.merges c r).2) :
+    (observed (getCell (step s ((Value.int i).op c r)).1 c r)).t = "" ∧
+    (observed (getCell (step s ((Value.int i).op c r)).1 c r)).v = hex (Ref.itoaInt i) ∧
+    (observed (getCell (step s ((Value.int i).op c r)).1 c r)).f = none ∧
+    decInt (Ref.itoaInt i) = some i := by
+  have := last_writer_wins s h .int c r "" (hex (Ref.itoaInt i)) hc hr ha
+  refine ⟨this.2.1, this.2.2, ?_, decInt_itoaInt i⟩
+  show (observed (getCell (step s (.set .int c r (.tv "" (hex (Ref.itoaInt i))))).1 c r)).f = none
+  rw [this.1]; exact write_clears_formula _ _ _
+
+/-- the same for `SetCellUint` -/
+theorem uint_exact (s : Sheet) (h : Dense s.rows) (n : Nat) (c r : Nat) (hc : 1 ≤ c) (hr : 1 ≤ r)
+    (ha : 1 ≤ (anchor s.merges c r).1 ∧ 1 ≤ (anchor s.merges c r).2) :
+    (observed (getCell (step s ((Value.uint n).op c r)).1 c r)).t = "" ∧
+    (observed (getCell (step s ((Value.uint n).op c r)).1 c r)).v = hex (Ref.itoa n) ∧
+    decInt (Ref.itoa n) = some (n : Int) := by
+  have := last_writer_wins s h .uint c r "" (hex (Ref.itoa n)) hc hr ha
+  exact ⟨this.2.1, this.2.2, decInt_itoa n⟩
+
+/-- clause "booleans": `SetCellBool` stores type `b` (which `GetCellType` maps to CellTypeBool) and "1"/"0" -/
+theorem bool_exact (s : Sheet) (h : Dense s.rows) (b : Bool) (c r : Nat) (hc : 1 ≤ c) (hr : 1 ≤ r)
+    (ha : 1 ≤ (anchor s.merges c r).1 ∧ 1 ≤ (anchor s.merges c r).2) :
+    (observed (getCell (step s ((Value.bool b).op c r)).1 c r)).t = Facts.C03.boolTag ∧
+    (observed (getCell (step s ((Value.bool b).op c r)).1 c r)).v = hex [if b then '1' else '0'] := by
+  have := last_writer_wins s h .bool c r Facts.C03.boolTag (hex [if b then '1' else '0']) hc hr ha
+  exact ⟨this.2.1, this.2.2⟩
+
+/-- clause "nil clearing the value": after `SetCellValue(cell, nil)` the cell reads back with no type,
+no value, no inline string and no formula; its style is what it was -/
+theorem nil_clears (s : Sheet) (h : Dense s.rows) (c r : Nat) (hc : 1 ≤ c) (hr : 1 ≤ r)
+    (ha : 1 ≤ (anchor s.merges c r).1 ∧ 1 ≤ (anchor s.merges c r).2) :
+    observed (getCell (step s (Value.nil.op c r)).1 c r) =
+      { (Spec.get (abs s) c r) with t := "", v := "", is := none, f := none } := by
+  have := write_readback s h .dflt c r .clr (fun e he => by cases he) hc hr ha
+  show observed (getCell (step s (.set .dflt c r .clr)).1 c r) = _
+  rw [this]
+  have h1 : Setter.dflt.removesFormula = true := value_setters_remove_formula _
+  simp only [writeCell, Payload.store, h1, if_true]
+  split <;> rfl
+
+/-- clause "strings verbatim up to 32767 characters": after `SetCellStr(cell, str)` the cell reads back
+as a shared-string cell whose index denotes, in the (append-only, `sst_stable`) table, the item holding
+C01's `storedText str` — the escaped text of `str` truncated to `TotalCellChars` runes — and reading
+that item back (`xlsxSI.String`) yields exactly `str` truncated to the limit (C01 `setstr_getstr`,
+via `bstr_roundtrip`). -/
+theorem str_verbatim (s : Sheet) (h : Dense s.rows) (str : List Char) (c r : Nat) (hc : 1 ≤ c) (hr : 1 ≤ r)
+    (ha : 1 ≤ (anchor s.merges c r).1 ∧ 1 ≤ (anchor s.merges c r).2) :
+    let s' := (step s ((Value.str str).op c r)).1
+    (observed (getCell s' c r)).t = Facts.C03.sstTag ∧
+    (observed (getCell s' c r)).v = idxTok (intern s.sst (strTok str)).2 ∧
+    s'.sst[(intern s.sst (strTok str)).2]? = some (strTok str) ∧
+    Bstr.siString (Bstr.storedText str) = Bstr.truncate str := by
+  have hlw := last_writer_wins s h .str c r Facts.C03.sstTag (idxTok (intern s.sst (strTok str)).2) hc hr ha
+  have hok : (writeAt s c r (writeCell .str (.tv Facts.C03.sstTag (idxTok (intern s.sst (strTok str)).2)))).2 = .ok := by
+    unfold writeAt
+    have h0 : ¬ (c = 0 ∨ r = 0) := by omega
+    have h1 : ¬ ((anchor s.merges c r).1 = 0 ∨ (anchor s.merges c r).2 = 0) := by omega
+    simp [h0, h1]
+  have hs' : (step s ((Value.str str).op c r)).1 =
+      { (writeAt s c r (writeCell .str (.tv Facts.C03.sstTag (idxTok (intern s.sst (strTok str)).2)))).1 with
+        sst := (intern s.sst (strTok str)).1 } := by
+    simp only [Value.op, Value.write, step, setCell, hok, if_true]
+  have hget : getCell (step s ((Value.str str).op c r)).1 c r =
+      getCell (step s (.set .str c r (.tv Facts.C03.sstTag (idxTok (intern s.sst (strTok str)).2)))).1 c r := by
+    rw [hs']; rfl
+  simp only
+  rw [hget]
+  refine ⟨hlw.2.1, hlw.2.2, ?_, ?_⟩
+  · rw [hs']; exact intern_denotes s.sst (strTok str)
+  · -- C01's `setstr_getstr`, re-derived from `unmarshal_marshal` (= `bstr_roundtrip`): Props/C01 cannot be
+    -- imported here because its SaveGrid model declares the same namespace names as XlModel.Grid
+    have h1 : Facts.C01.sharedStringStoresEscaped = true := rfl
+    have h2 : Facts.C01.trimCellValueMarshals = true := rfl
+    simp only [Bstr.storedText, Bstr.trimCellValue, h1, h2, if_true, Bstr.siString, Bstr.truncate_idem,
+      Bstr.marshal_isEmpty, Bstr.unmarshal_marshal]
+    cases h : Bstr.truncate str with
+    | nil => simp
+    | cons _ _ => simp
+
+/-! ## spellings -/
+
+/-- clause "cell names are case-insensitive": a spelling the decoder accepts, and the same spelling with
+its letters upper-cased (what `mergeCellsParser` does first, for setters and getters alike), denote the
+same coordinates (C20 `upper_same_cell`); so a write through one and a read through the other address the
+same model cell — the read returns the payload written. -/
+theorem case_insensitive (s : Sheet) (h : Dense s.rows) (name : List Char) (ci ri : Int)
+    (hn : Ref.cellNameToCoordinates name = .ok (ci, ri)) (k : Setter) (t v : Tok)
+    (hc : 1 ≤ ci.toNat) (hr : 1 ≤ ri.toNat)
+    (ha : 1 ≤ (anchor s.merges ci.toNat ri.toNat).1 ∧ 1 ≤ (anchor s.merges ci.toNat ri.toNat).2) :
+    Ref.cellNameToCoordinates (name.map Ref.toUpper) = .ok (ci, ri) ∧
+    Ref.getterFinds name = some true ∧
+    (observed (getCell (step s (.set k ci.toNat ri.toNat (.tv t v))).1 ci.toNat ri.toNat)).v = v :=
+  ⟨XlModel.Props.C20.upper_same_cell name ci ri hn, XlModel.Props.C20.spellings_same_cell name ci ri hn,
+   (last_writer_wins s h k ci.toNat ri.toNat t v hc hr ha).2.2⟩
 
 /-! ## non-vacuity -/
 
